@@ -174,9 +174,22 @@ func (kc *Cache[V]) ForEach(k []byte, fn func(e Entry[V]) bool) {
 	defer kc.mu.RUnlock()
 	d := Distance(kc.locus, k)
 	lz := LeadingZeros(d)
-	// everything in these buckets will have lz bits matching k.
-	for i := lz; i < len(kc.buckets); i++ {
-		if !kc.buckets[i].forEach(k, fn) {
+	// everything in this bucket will have more than lz bits matching k.
+	if lz < len(kc.buckets) {
+		if !kc.buckets[lz].forEach(k, fn) {
+			return
+		}
+	}
+	// everything in the deeper buckets has exactly lz bits matching k, but bucket order is
+	// not distance order there, so merge them before sorting by distance to k.
+	if lz+1 < len(kc.buckets) {
+		merged := bucket[V]{entries: make(map[string]Entry[V])}
+		for i := lz + 1; i < len(kc.buckets); i++ {
+			for key, e := range kc.buckets[i].entries {
+				merged.entries[key] = e
+			}
+		}
+		if !merged.forEach(k, fn) {
 			return
 		}
 	}
